@@ -31,8 +31,9 @@ PARTIAL = ["C12_ops_respect_equiv (binary / JSON / validate / generate give the 
            "codec-level consequence over a whole table (one inlining step only: C12_ref_is_its_definition + congruence)",
            "C12_selfcontained is proved relative to the table (C12_inline_closed_rel): every reference left by inlining "
            "either follows its definition or names a type that is not in the table",
-           "C12_reparse_partial: re-parsing a parsed, unmarked schema gives the same names and canonical form IF it is "
-           "accepted (acceptance itself is checked by the correspondence, not proved)"]
+           "C12_reparse is proved in full for a re-parse in the SAME state (C12_reparse, C12_reparse_top: the parser accepts its own "
+           "output and returns the same output and the same dictionary); for a re-parse in a different state "
+           "(C12_reparse_partial) acceptance is still a premise (checked by the correspondence)"]
 
 IMPORTS = ("From Coq Require Import String.\n"
            "From FA Require Import model.Base model.Json model.Parse model.Canon model.Piecewise.\n")
